@@ -24,6 +24,12 @@ pub mod c09;
 #[cfg(feature = "c16")]
 pub mod c16;
 
+#[cfg(feature = "c19")]
+pub mod c19;
+#[cfg(feature = "c19")]
+#[path = "gen/c19.rs"]
+pub mod c19g;
+
 #[cfg(feature = "replay")]
 #[cfg(kani)]
 mod replay_active;
